@@ -6,7 +6,8 @@
 From Coq Require Import List NArith Bool.
 Import ListNotations.
 From PV Require Import Model.SanitizeDef gen.Sanitize_gen Model.Sanitize Model.Like Model.Sha256 Model.AppDb
-  Proofs.SanitizeProofs Proofs.LikeProofs Proofs.AppDbProofs.
+  Model.ProcShared gen.ProcShared_gen
+  Proofs.SanitizeProofs Proofs.LikeProofs Proofs.AppDbProofs Proofs.ProcSharedProofs.
 Open Scope N_scope.
 
 (* 1. No id string can break or escape the naming scheme: for EVERY id the prefix is a non-empty
@@ -153,9 +154,38 @@ Theorem isolation_of_this_tree :
 Proof. exact (this_tree_pf gen_purge). Qed.
 Print Assumptions isolation_of_this_tree.
 
+(* 7. One process.  Per-instance attributes belong to one application object; what the components of
+      two applications have in common are the containers bound in a class body or at module level of the
+      component modules (gen_shared: regenerated from the source with the kinds of access made to each).
+      If every such container is only stored to / removed from under the acting application's own id,
+      no sequence of accesses by other applications changes what b observes (Model/ProcShared.v). *)
+Theorem keyed_containers_isolate : forall sh, all_keyed sh = true -> proc_isolated sh.
+Proof. exact keyed_isolated_pf. Qed.
+Print Assumptions keyed_containers_isolate.
+
+(*    A process-wide container that is cleared as a whole refutes it (b registered itself, a clears) ... *)
+Theorem clear_breaks_isolation : forall sh c accs,
+  accs_of sh c = Some accs -> has AClear accs = true -> has APutId accs = true -> ~ proc_isolated sh.
+Proof. exact clear_refuted_pf. Qed.
+Print Assumptions clear_breaks_isolation.
+
+(*    ... and so does one that is written and read at keys that are not application ids. *)
+Theorem foreign_keys_break_isolation : forall sh c accs,
+  accs_of sh c = Some accs -> has APutKey accs = true -> has AGetKey accs = true -> ~ proc_isolated sh.
+Proof. exact unkeyed_refuted_pf. Qed.
+Print Assumptions foreign_keys_break_isolation.
+
+(*    The process-wide containers of the CURRENT source tree keep the applications apart. *)
+Theorem process_isolation_of_this_tree : proc_isolated gen_shared.
+Proof. exact (keyed_isolated_pf gen_shared eq_refl). Qed.
+Print Assumptions process_isolation_of_this_tree.
+
 (* non-vacuity: "9 lives!" -> "_9_lives_" ++ "_" ++ 8 hex digits, then "__broker_message_queue" *)
 Example c17_nonvacuous :
   sanitize [57; 32; 108; 105; 118; 101; 115; 33] = [95; 57; 95; 108; 105; 118; 101; 115; 95] /\
   prefix sha256_hex [120] = [120; 95; 50; 100; 55; 49; 49; 54; 52; 50] /\
-  all_tables sha256_hex [120] <> [].
+  all_tables sha256_hex [120] <> [] /\
+  (* the registry after "b" and "a" registered: b observes its own entry only, before and after a's removal *)
+  pview [([82], [AGetId; APutId; ADelId])] [98] (prun [] [PPutId [98] [82] 7; PPutId [97] [82] 9; PDelId [97] [82]])
+    = [(Some 7, [])].
 Proof. vm_compute. repeat split; try reflexivity. discriminate. Qed.
